@@ -15,13 +15,13 @@ RECURSIVE Concat(_)
 Concat(pl) == IF pl = <<>> THEN <<>> ELSE ProgOf[Head(pl)] \o Concat(Tail(pl))
 Init == /\ plan \in [Threads -> Plans]
         /\ prog = [t \in Threads |-> Concat(plan[t])]
-        /\ st = InitSt([c \in {"Req", "Resp"} |-> <<Bound0[c], 0>>])
+        /\ st = InitSt
         /\ pc = [t \in Threads |-> 1]
 Step(t) ==
   /\ pc[t] <= Len(prog[t])
   /\ LET op0 == prog[t][pc[t]]
          op == [op0 EXCEPT !.inst = InstOf(t, op0)]
-         h == IF PerInstance THEN HitOwn(op) ELSE HitAsIs(st.bound, op)
+         h == IF PerInstance THEN HitOwn(op) ELSE HitAsIs(st.bound, t, op, <<"nostore", 0>>)
          v == IF op.ev = "get" THEN Look(st.slot, <<h, t, op.prop>>) ELSE ValOf(t, op, pc[t])
      IN st' = Apply(st, t, op, h, v)
   /\ pc' = [pc EXCEPT ![t] = @ + 1]
